@@ -206,7 +206,32 @@ func runParamsCase(ta *TestApp, seed uint64, idx int, rep *Report, profile strin
 		pe.subsTerm(stored()), mterm0, stateTerm(mstate), zBool(poolsExist))
 
 	perturbSub := func(sd distrtypes.SubDistributor) distrtypes.SubDistributor {
-		switch rng.Intn(7) {
+		switch rng.Intn(9) {
+		case 7, 8:
+			// a share named like a share (or the reserved primary share name) of ANOTHER sub-distributor:
+			// fine inside this sub-distributor, not in the configuration as a whole
+			var cands []string
+			for _, o := range stored() {
+				if o.Name == sd.Name {
+					continue
+				}
+				cands = append(cands, o.Name+"_primary")
+				for _, sh := range o.Destinations.Shares {
+					cands = append(cands, sh.Name)
+				}
+			}
+			if len(cands) == 0 {
+				sd.Destinations.BurnShare = shareDec(rng)
+				break
+			}
+			nm := cands[rng.Intn(len(cands))]
+			if len(sd.Destinations.Shares) > 0 && rng.Bool() {
+				sd.Destinations.Shares[0].Name = nm
+			} else {
+				sd.Destinations.Shares = append(sd.Destinations.Shares, &distrtypes.DestinationShare{Name: nm, Share: sdk.NewDecWithPrec(1, 3),
+					Destination: distrtypes.Account{Type: distrtypes.ModuleAccount, Id: distrModules[rng.Intn(len(distrModules))]}})
+			}
+			rep.Count("perturb.share_name_of_other_subdistributor")
 		case 0:
 			sd.Destinations.BurnShare = shareDec(rng)
 		case 1:
@@ -395,6 +420,22 @@ func runParamsCase(ta *TestApp, seed uint64, idx int, rep *Report, profile strin
 		rep.Eval("C13.only_authority_changes_parameters", authOK || (!ok && string(afterD) == string(beforeD) && string(afterMb) == string(beforeMb) && afterV.Denom == beforeV.Denom), idx, s, term)
 		rep.Eval("C13.rejected_update_changes_nothing", ok || (string(afterD) == string(beforeD) && string(afterMb) == string(beforeMb) && afterV.Denom == beforeV.Denom), idx, s, term)
 		rep.Eval("C13.stored_distributor_params_validate", after.Validate() == nil, idx, s, fmt.Sprintf("%s: stored distributor parameters: %v", term, after.Validate()))
+		// the rule itself, evaluated here independently of the module's Validate: share names (incl. the reserved
+		// "<name>_primary") are unique across the whole configuration
+		seenNames, dupName := map[string]bool{}, ""
+		for _, sd := range after.SubDistributors {
+			names := []string{sd.Name + "_primary"}
+			for _, sh := range sd.Destinations.Shares {
+				names = append(names, sh.Name)
+			}
+			for _, n := range names {
+				if seenNames[n] {
+					dupName = n
+				}
+				seenNames[n] = true
+			}
+		}
+		rep.Eval("C13.stored_share_names_unique", dupName == "", idx, s, fmt.Sprintf("%s: share name %q occurs twice in the stored configuration", term, dupName))
 		rep.Eval("C13.stored_minter_params_validate", afterM.Validate() == nil, idx, s, fmt.Sprintf("%s: stored minter parameters: %v", term, afterM.Validate()))
 		hasCur := false
 		for _, m := range afterM.Minters {
